@@ -179,7 +179,9 @@ func arrayContainsFunc(_ *ctx.EvalCtx, receiver object.Object, args ...object.Ob
 		isArr := el.Type() == object.ARR_OBJ && target.Type() == object.ARR_OBJ
 
 		if isObj || isArr {
-			if reflect.DeepEqual(el, target) {
+			// compare the contents, so that empty arrays are equal
+			// whether or not they have storage for elements
+			if reflect.DeepEqual(el.Val(), target.Val()) {
 				return &object.Bool{Value: true}, nil
 			}
 
